@@ -36,7 +36,10 @@ func (v *vc) smtFor(ob *obligation, withModel bool, values []string) string {
 		b.WriteString(d)
 		b.WriteByte('\n')
 	}
-	for _, l := range v.eng.contracts.smt {
+	for i, l := range v.eng.contracts.smt {
+		if p := v.eng.contracts.smtPkg[i]; p != "" && (v.fc == nil || p != v.fc.pkgPath) {
+			continue
+		}
 		b.WriteString(l)
 		b.WriteByte('\n')
 	}
